@@ -185,7 +185,7 @@ func runC48(t rapid.TB, c c48Case, rec *vx.Case) {
 					why = fmt.Sprintf("ambiguous with accepted %+v", c.Regs[j])
 				}
 			}
-			panicked, _ := vx.Recover(func() {
+			panicked := c48Try(func() {
 				if reg.Prefix {
 					r.AddPrefixRoute(reg.Name, c48ModV2{id: i})
 				} else {
@@ -238,7 +238,7 @@ func runC48(t rapid.TB, c c48Case, rec *vx.Case) {
 			for rep := 0; rep < c48Repeats; rep++ {
 				got := -1
 				has := r.HasRoute(port)
-				panicked, _ := vx.Recover(func() {
+				panicked := c48Try(func() {
 					mod := r.Route(port)
 					mm, ok := mod.(c48ModV2)
 					if !ok {
@@ -338,7 +338,7 @@ func runC48(t rapid.TB, c c48Case, rec *vx.Case) {
 		}
 		// duplicates and non-alphanumeric names are refused
 		for _, r := range c.Regs {
-			dup, _ := vx.Recover(func() { rt.AddRoute(r.Name, c48ModV1{name: "DUP:" + r.Name}) })
+			dup := c48Try(func() { rt.AddRoute(r.Name, c48ModV1{name: "DUP:" + r.Name}) })
 			if !dup {
 				vx.Violatef(t, rec, id, "v1-duplicate-or-invalid-accepted", "v1 router accepted a second/invalid registration of %q", r.Name)
 			}
@@ -390,6 +390,21 @@ func runC48(t rapid.TB, c c48Case, rec *vx.Case) {
 	rec.Add("v2_refused_without_model_conflict", int64(overRefused))
 	rec.Add("v2_registrations", int64(len(orders)*n))
 	rec.NonTrivialIf(refused > 0 || multi)
+}
+
+// c48Try runs f and reports whether it panicked (registration refusal / missing route).
+// Harness errors are re-panicked.
+func c48Try(f func()) (panicked bool) {
+	defer func() {
+		if r := recover(); r != nil {
+			if he, ok := r.(vx.HarnessError); ok {
+				panic(he)
+			}
+			panicked = true
+		}
+	}()
+	f()
+	return false
 }
 
 func c48Show(regs []c48Reg, idx []int) string {
